@@ -2,6 +2,8 @@
 use crate::exec::*;
 use crate::oracle::*;
 use crate::oracle_search as os;
+use crate::exec_cont::*;
+use std::collections::{BTreeMap, BTreeSet};
 use std::cell::RefCell;
 
 /// parsed `search` / `order` request
@@ -273,16 +275,105 @@ macro_rules! kind_reversed {
 }
 
 macro_rules! ext_mod {
-    ($m:ident, $fl:ident, $kind:ident) => {
+    ($m:ident, $fl:ident, $kind:ident, $ckind:ident) => {
         pub mod $m {
             #![allow(unused, clippy::all)]
             use super::*;
             use crate::exec::$m::{St, G, N, DIRECTED};
             use gdsl::$fl::*;
             #[derive(Default)]
-            pub struct Ext {}
+            pub struct Ext {
+                pub graphs: Vec<G>,
+                /// the reference map of the C18 oracle: key -> value of the member
+                pub refmaps: Vec<BTreeMap<usize, i64>>,
+                pub annot: Option<String>,
+            }
             kind_search!($kind);
             kind_reversed!($kind);
+            cont_kind_items!($ckind);
+
+            pub fn order_of(g: &G) -> Vec<usize> {
+                g.iter().map(|(k, _)| *k).collect()
+            }
+            fn annot_order(ext: &mut Ext, slot: usize) -> Vec<usize> {
+                let o = order_of(&ext.graphs[slot]);
+                ext.annot = Some(format!("@order={}", o.iter().map(|k| k.to_string()).collect::<Vec<_>>().join(",")));
+                o
+            }
+            /// what a graph denotes, read back through the public API (not through serde):
+            /// nodes in iteration order, then per node its own edge list (outgoing / adjacency)
+            pub fn denotation(g: &G) -> (Vec<(usize, i64)>, Vec<(usize, Vec<Entry>, Vec<Entry>)>) {
+                let mut nodes = vec![];
+                let mut lists = vec![];
+                for (k, n) in g.iter() {
+                    nodes.push((*k, *n.value()));
+                    let (out, inn) = crate::exec::$m::lists_of(n);
+                    lists.push((*k, out, inn));
+                }
+                (nodes, lists)
+            }
+            fn slot(ext: &mut Ext, i: usize) {
+                while ext.graphs.len() <= i {
+                    ext.graphs.push(G::new());
+                    ext.refmaps.push(BTreeMap::new());
+                }
+            }
+            fn one_line(s: &str) -> String {
+                s.replace('\n', "|").replace('\t', "\\t")
+            }
+            /// replaces the world of the case by the nodes of graph `g` (in `order`) and makes it slot 0
+            fn replace_world(st: &mut St, ext: &mut Ext, g: G, order: &[usize]) {
+                st.nodes = order.iter().filter_map(|k| g.get(k)).collect();
+                ext.refmaps = vec![st.nodes.iter().map(|n| (*n.key(), *n.value())).collect()];
+                ext.graphs = vec![g];
+            }
+            fn ser(g: &G, fmt: &str) -> Result<Vec<u8>, String> {
+                if fmt == "json" {
+                    serde_json::to_vec(g).map_err(|e| e.to_string())
+                } else {
+                    serde_cbor::to_vec(g).map_err(|e| e.to_string())
+                }
+            }
+            fn de(bytes: &[u8], fmt: &str) -> Result<G, String> {
+                if fmt == "json" {
+                    serde_json::from_slice::<G>(bytes).map_err(|e| e.to_string())
+                } else {
+                    serde_cbor::from_slice::<G>(bytes).map_err(|e| e.to_string())
+                }
+            }
+            fn parse_doc_bytes(bytes: &[u8], fmt: &str) -> Option<Doc> {
+                if fmt == "json" {
+                    serde_json::from_slice::<Doc>(bytes).ok()
+                } else {
+                    serde_cbor::from_slice::<Doc>(bytes).ok()
+                }
+            }
+            /// C13: invariants of an `Ok` graph against the abstract document (if it could be typed)
+            fn ok_graph_invariants(g: &G, doc: &Option<Doc>) -> Result<(), String> {
+                let (nodes, lists) = denotation(g);
+                let ls: Lists = lists.iter().map(|(k, o, i)| NodeLists { key: *k, out: o.clone(), inn: i.clone() }).collect();
+                if DIRECTED { mirror(&ls)? } else { symmetric(&ls)? }
+                if let Some((dn, de)) = doc {
+                    for (k, v) in &nodes {
+                        if !dn.iter().any(|x| x.0 == *k && x.1 == *v) {
+                            return Err(format!("node ({k},{v}) of the result is not declared in the document"));
+                        }
+                    }
+                    for (k, out, _) in &lists {
+                        for (v, e) in out {
+                            let listed = de.iter().any(|x| (x.0, x.1, x.2) == (*k, *v, *e)) || (!DIRECTED && de.iter().any(|x| (x.0, x.1, x.2) == (*v, *k, *e)));
+                            if !listed {
+                                return Err(format!("edge {k}->{v}:{e} of the result is not listed in the document"));
+                            }
+                        }
+                    }
+                    let declared: BTreeSet<usize> = dn.iter().map(|x| x.0).collect();
+                    if de.iter().any(|x| !declared.contains(&x.0) || !declared.contains(&x.1)) {
+                        return Err("an edge of the document names an undeclared key but deserialisation returned Ok".into());
+                    }
+                }
+                Ok(())
+            }
 
             pub fn exec_line(st: &mut St, ext: &mut Ext, t: &[&str], raw: &str, ctx: &mut Ctx, case: &str, li: usize) -> String {
                 match t[0] {
@@ -324,13 +415,245 @@ macro_rules! ext_mod {
                         }
                         s
                     }
+                    x if x.starts_with("g.") => {
+                        let i: usize = t[1].parse().unwrap();
+                        slot(ext, i);
+                        let c18 = !ctx.quiet && ctx.oracles.iter().any(|o| o == "c18");
+                        let p = |j: usize| -> usize { t[j].parse::<usize>().unwrap() };
+                        match x {
+                            "g.new" => {
+                                ext.graphs[i] = G::new();
+                                ext.refmaps[i] = BTreeMap::new();
+                                "ok".into()
+                            }
+                            "g.insert" => {
+                                let n = st.node(p(2)).clone();
+                                let r = ext.graphs[i].insert(n.clone());
+                                let fresh = !ext.refmaps[i].contains_key(&p(2));
+                                if c18 && !(r == fresh) { ctx.fail(case, li, "c18", format!("insert({}) returned {} but the key was {}", p(2), r, if fresh { "absent" } else { "present" })); }
+                                ext.refmaps[i].entry(p(2)).or_insert(*n.value());
+                                format!("{r}")
+                            }
+                            "g.insert_dup" => {
+                                // a different node with an already present key: must be refused, the original kept
+                                if !ext.graphs[i].contains(&p(2)) {
+                                    "skip".into()
+                                } else {
+                                    let dup = N::new(p(2), t[3].parse::<i64>().unwrap());
+                                    let r = ext.graphs[i].insert(dup);
+                                    let kept = ext.graphs[i].get(&p(2)).map(|n| *n.value());
+                                    if c18 && !(!r && kept == ext.refmaps[i].get(&p(2)).cloned()) { ctx.fail(case, li, "c18", format!("insert of a second node with key {} returned {} and the container now holds value {:?} (original {:?})", p(2), r, kept, ext.refmaps[i].get(&p(2)))); }
+                                    format!("{r} get={:?}", kept)
+                                }
+                            }
+                            "g.remove" => {
+                                let r = ext.graphs[i].remove(&p(2)).map(|n| (*n.key(), *n.value()));
+                                let e2 = ext.refmaps[i].remove(&p(2)).map(|v| (p(2), v));
+                                if c18 && !(r == e2) { ctx.fail(case, li, "c18", format!("remove({}) returned {:?}, the map holds {:?}", p(2), r, e2)); }
+                                format!("{:?}", r.map(|x| x.0))
+                            }
+                            "g.get" => {
+                                let r = ext.graphs[i].get(&p(2)).map(|n| (*n.key(), *n.value()));
+                                let e2 = ext.refmaps[i].get(&p(2)).map(|v| (p(2), *v));
+                                if c18 && !(r == e2) { ctx.fail(case, li, "c18", format!("get({}) returned {:?}, the map holds {:?}", p(2), r, e2)); }
+                                match r {
+                                    Some((k, v)) => format!("Some({k}:{v})"),
+                                    None => "None".into(),
+                                }
+                            }
+                            "g.index" => {
+                                let n = &ext.graphs[i][p(2)];
+                                if c18 && !(Some(n.value()) == ext.refmaps[i].get(&p(2))) { ctx.fail(case, li, "c18", format!("index({}) yields value {}", p(2), n.value())); }
+                                format!("{}:{}", n.key(), n.value())
+                            }
+                            "g.contains" => {
+                                let r = ext.graphs[i].contains(&p(2));
+                                if c18 && !(r == ext.refmaps[i].contains_key(&p(2))) { ctx.fail(case, li, "c18", format!("contains({}) = {}", p(2), r)); }
+                                format!("{r}")
+                            }
+                            "g.len" => {
+                                let r = ext.graphs[i].len();
+                                if c18 && !(r == ext.refmaps[i].len()) { ctx.fail(case, li, "c18", format!("len() = {} but {} members", r, ext.refmaps[i].len())); }
+                                format!("{r}")
+                            }
+                            "g.is_empty" => {
+                                let r = ext.graphs[i].is_empty();
+                                if c18 && !(r == ext.refmaps[i].is_empty()) { ctx.fail(case, li, "c18", format!("is_empty() = {}", r)); }
+                                format!("{r}")
+                            }
+                            "g.connect" => {
+                                // an edge operation through container handles must be visible through every other handle
+                                let (u, v) = (ext.graphs[i].get(&p(2)).unwrap(), ext.graphs[i].get(&p(3)).unwrap());
+                                let before = st.lists();
+                                u.connect(&v, p(4) as u32);
+                                let after = st.lists();
+                                if c18 {
+                                    if let Err(m) = contract(DIRECTED, &EdgeOp::Connect(p(2), p(3), p(4) as u32), &before, &after, &OpRes::Unit) {
+                                        ctx.fail(case, li, "c18", format!("connect through container handles is not visible through the original handles: {m}"));
+                                    }
+                                }
+                                "ok".into()
+                            }
+                            "g.to_vec" => {
+                                let o = annot_order(ext, i);
+                                let r: Vec<usize> = ext.graphs[i].to_vec().iter().map(|n| *n.key()).collect();
+                                let s1: BTreeSet<usize> = r.iter().cloned().collect();
+                                if c18 && !(r.len() == ext.refmaps[i].len() && s1 == ext.refmaps[i].keys().cloned().collect()) { ctx.fail(case, li, "c18", format!("to_vec() = {:?} but the members are {:?}", r, ext.refmaps[i].keys())); }
+                                let _ = o;
+                                fmt_keys(&r)
+                            }
+                            "g.iter" => {
+                                let _o = annot_order(ext, i);
+                                let r: Vec<(usize, i64)> = ext.graphs[i].iter().map(|(k, n)| (*k, *n.value())).collect();
+                                let m: BTreeMap<usize, i64> = r.iter().cloned().collect();
+                                if c18 && !(r.len() == m.len() && m == ext.refmaps[i] && ext.graphs[i].iter().all(|(k, n)| k == n.key())) { ctx.fail(case, li, "c18", format!("iter() = {:?} but the map is {:?}", r, ext.refmaps[i])); }
+                                format!("[{}]", r.iter().map(|(k, v)| format!("{k}:{v}")).collect::<Vec<_>>().join(","))
+                            }
+                            "g.roots" | "g.leaves" | "g.orphans" => {
+                                let _o = annot_order(ext, i);
+                                let r = views(&ext.graphs[i], x);
+                                if c18 {
+                                    let ls = st.lists();
+                                    let mut expect_set: BTreeSet<usize> = BTreeSet::new();
+                                    for k in ext.refmaps[i].keys() {
+                                        if let Some(n) = ls.iter().find(|n| n.key == *k) {
+                                            let ok = match (x, DIRECTED) {
+                                                ("g.roots", true) => n.inn.is_empty(),
+                                                ("g.leaves", true) => n.out.is_empty(),
+                                                _ => n.out.is_empty() && n.inn.is_empty(),
+                                            };
+                                            if ok {
+                                                expect_set.insert(*k);
+                                            }
+                                        }
+                                    }
+                                    let got: BTreeSet<usize> = r.iter().cloned().collect();
+                                    if c18 && !(got == expect_set && got.len() == r.len()) { ctx.fail(case, li, "c18", format!("{} = {:?} but the members with that property are {:?}", x, r, expect_set)); }
+                                }
+                                fmt_keys(&r)
+                            }
+                            "g.scc" => {
+                                let _o = annot_order(ext, i);
+                                match scc_of(&ext.graphs[i]) {
+                                    None => "unsupported".into(),
+                                    Some(cs) => {
+                                        if !ctx.quiet && ctx.oracles.iter().any(|o| o == "c11") {
+                                            let ls = st.lists();
+                                            let members: Vec<usize> = ext.refmaps[i].keys().cloned().collect();
+                                            let closed = members.iter().all(|m| ls.iter().find(|n| n.key == *m).map_or(true, |n| n.out.iter().chain(n.inn.iter()).all(|p| members.contains(&p.0))));
+                                            if !closed {
+                                                ctx.count("scc.not_closed_skipped");
+                                            } else if let Err(m) = crate::oracle_cont::scc_partition(&ls, &members, &cs) {
+                                                ctx.fail(case, li, "c11", m);
+                                            }
+                                        }
+                                        format!("[{}]", cs.iter().map(|c| fmt_keys(c)).collect::<Vec<_>>().join(","))
+                                    }
+                                }
+                            }
+                            "g.to_dot" => {
+                                let _o = annot_order(ext, i);
+                                let s = ext.graphs[i].to_dot();
+                                if c18 {
+                                    let ls = st.lists();
+                                    if let Err(m) = crate::oracle_cont::dot_plain(&s, &ls, &ext.refmaps[i].keys().cloned().collect::<Vec<_>>()) {
+                                        ctx.fail(case, li, "c18", m);
+                                    }
+                                }
+                                one_line(&s)
+                            }
+                            "g.to_dot_attr" => {
+                                let _o = annot_order(ext, i);
+                                match dot_attr(&ext.graphs[i], p(2)) {
+                                    None => "unsupported".into(),
+                                    Some(s) => {
+                                        if c18 {
+                                            let ls = st.lists();
+                                            if let Err(m) = crate::oracle_cont::dot_attr(&s, &ls, &ext.refmaps[i], p(2)) {
+                                                ctx.fail(case, li, "c18", m);
+                                            }
+                                        }
+                                        one_line(&s)
+                                    }
+                                }
+                            }
+                            "g.ser" => {
+                                let _o = annot_order(ext, i);
+                                let bytes = ser(&ext.graphs[i], t[2]).unwrap();
+                                match parse_doc_bytes(&bytes, t[2]) {
+                                    Some(d) => show_doc(&d),
+                                    None => "unparsable".into(),
+                                }
+                            }
+                            "g.roundtrip" => {
+                                let o = annot_order(ext, i);
+                                let bytes = ser(&ext.graphs[i], t[2]).unwrap();
+                                match de(&bytes, t[2]) {
+                                    Err(m) => format!("err"),
+                                    Ok(g2) => {
+                                        if !ctx.quiet && ctx.oracles.iter().any(|o| o == "c12") {
+                                            if let Err(m) = crate::oracle_cont::same_graph(DIRECTED, &denotation(&ext.graphs[i]), &denotation(&g2)) {
+                                                ctx.fail(case, li, "c12", format!("{} round trip: {m}", t[2]));
+                                            }
+                                        }
+                                        replace_world(st, ext, g2, &o);
+                                        "ok".into()
+                                    }
+                                }
+                            }
+                            "g.de" => {
+                                // g.de <slot> <json|cbor> <document as compact JSON text>
+                                let text = raw.splitn(4, ' ').nth(3).unwrap_or("");
+                                let (abs, doc) = abstract_doc(text);
+                                ext.annot = Some(format!("@abs={abs}"));
+                                let bytes: Vec<u8> = if t[2] == "json" {
+                                    text.as_bytes().to_vec()
+                                } else {
+                                    match serde_json::from_str::<serde_json::Value>(text) {
+                                        Ok(v) => serde_cbor::to_vec(&v).unwrap(),
+                                        Err(_) => text.as_bytes().to_vec(),
+                                    }
+                                };
+                                let r = de(&bytes, t[2]);
+                                let c13 = !ctx.quiet && ctx.oracles.iter().any(|o| o == "c13");
+                                match r {
+                                    Err(_) => {
+                                        if abs == "any" { "any".into() } else { "err".into() }
+                                    }
+                                    Ok(g2) => {
+                                        if c13 {
+                                            if let Err(m) = ok_graph_invariants(&g2, &doc) {
+                                                ctx.fail(case, li, "c13", format!("deserialising `{}` ({}) returned Ok but {m}", text, t[2]));
+                                            }
+                                        }
+                                        if abs == "any" {
+                                            "any".into()
+                                        } else {
+                                            let mut order: Vec<usize> = vec![];
+                                            if let Some((dn, _)) = &doc {
+                                                for (k, _) in dn {
+                                                    if !order.contains(k) {
+                                                        order.push(*k);
+                                                    }
+                                                }
+                                            }
+                                            let n = g2.len();
+                                            replace_world(st, ext, g2, &order);
+                                            format!("ok n={n}")
+                                        }
+                                    }
+                                }
+                            }
+                            _ => "bad-op".into(),
+                        }
+                    }
                     _ => "bad-op".to_string(),
                 }
             }
         }
     };
 }
-ext_mod!(di, digraph, di);
-ext_mod!(sdi, sync_digraph, di);
-ext_mod!(un, ungraph, un);
-ext_mod!(sun, sync_ungraph, un);
+ext_mod!(di, digraph, di, di);
+ext_mod!(sdi, sync_digraph, di, di);
+ext_mod!(un, ungraph, un, un);
+ext_mod!(sun, sync_ungraph, un, sun);
